@@ -406,6 +406,13 @@ pub fn main_for(spec: CheckSpec, args: &[String]) -> i32 {
             }
             0
         },
+        Some("--worker") => {
+            let Some(a) = args.get(1) else { usage(&spec) };
+            let Some(arm) = find_arm(&spec, a) else { usage(&spec) };
+            // the worker serves the *inner* arm: isolation is switched off inside the child
+            std::env::set_var("VERIF_NO_ISOLATION", "1");
+            crate::iso::worker_main(arm)
+        },
         Some("--one") => {
             let (Some(a), Some(r)) = (args.get(1), args.get(2).and_then(|v| v.parse::<u64>().ok())) else {
                 usage(&spec)
